@@ -21,6 +21,7 @@ type cutParams struct {
 	Prefix []int // indices into Alpha
 	Free   int
 	Alpha  []int // the per-block alphabet of this unit: indices into blockOpts
+	Types  int   // how many of certTypes are explored (3: pp, fep, optimistic; 2: pp, fep)
 }
 
 // limiter configurations as the real flows build them (flow_pp.go, flow_aggchain_prover.go)
@@ -61,7 +62,7 @@ func runCut(c *mc.Ctx, p cutParams) {
 		opts = append(opts, p.Alpha[c.Choose(len(p.Alpha), "block-layout")])
 	}
 	prev := c.Choose(3, "previous-certificate") // 0 none (StartL2Block), 1 settled, 2 in error (=> retry)
-	ct := certTypes[c.Choose(len(certTypes), "certificate-type")]
+	ct := certTypes[c.Choose(p.Types, "certificate-type")]
 	cfgs := ppCfgs
 	if ct != types.CertificateTypePP {
 		cfgs = fepCfgs
